@@ -76,12 +76,16 @@ def rows_of(rec, idx=0):
     return rows
 
 
-def write_table(path, rows, sep="\t", optional=True):
+def write_table(path, rows, sep="\t", optional=True, annotate=False):
     cols = ["mutation_id", "sample_id", "ref_counts", "alt_counts", "major_cn", "minor_cn", "normal_cn"] + (["tumour_content", "error_rate"] if optional else [])
+    # annotate: two further columns the loader does not use (as annotated variant tables carry), with empty and NA cells
+    ann = ["gene", "note"] if annotate else []
     with open(path, "w") as fh:
-        fh.write(sep.join(cols) + "\n")
+        fh.write(sep.join(cols + ann) + "\n")
         for r in rows:
-            fh.write(sep.join(str(r[c]) for c in cols) + "\n")
+            k = (int(r["ref_counts"]) + int(r["alt_counts"])) % 3
+            extra = ([("", "NA", "TP53")[k], ("NA", "x", "")[k]] if annotate else [])
+            fh.write(sep.join([str(r[c]) for c in cols] + extra) + "\n")
 
 
 def load(path, cluster_file=None):
@@ -148,7 +152,7 @@ def _check_table(rec, idx, workdir, seed, corrupt=None):
         base = None
         for oi, ro in enumerate(orders):
             p = os.path.join(d, "in_%d.%s" % (oi, "csv" if sep == "," else "tsv"))
-            write_table(p, ro, sep=sep, optional=optional)
+            write_table(p, ro, sep=sep, optional=optional, annotate=(idx % 4 == 1))
             try:
                 data, samples = load(p)
             except Exception as ex:
